@@ -349,10 +349,15 @@ def _fill_in_default_arguments(func: Callable, call: ast.Call) -> Tuple[ast.Call
                 if a is not None:
                     arg_array.append(a)  # type: ignore
                 elif param.default is not param.empty:
+                    if not isinstance(param.default, (str, int, float, bool, complex, bytes, type(None))):
+                        # Not something that can be written into the query (e.g. the internal
+                        # `known_types={}` of the stream operators): leave the call as it is.
+                        break
                     a = as_literal(param.default)
                     arg_array.append(a)
                 else:
                     raise ValueError(f"Argument {param.name} is required")
+            i_arg += 1
 
     # If we are making a change to the call, put in a reference back to the
     # original call.
